@@ -4,7 +4,9 @@ go 1.18
 
 require (
 	github.com/alpacahq/marketstore/v4 v4.0.0
+	github.com/klauspost/compress v1.10.4
 	github.com/vmihailenco/msgpack v4.0.4+incompatible
+	go.uber.org/zap v1.15.0
 )
 
 require (
@@ -13,7 +15,6 @@ require (
 	github.com/beorn7/perks v1.0.1 // indirect
 	github.com/cespare/xxhash/v2 v2.1.2 // indirect
 	github.com/golang/protobuf v1.5.2 // indirect
-	github.com/klauspost/compress v1.10.4 // indirect
 	github.com/matttproud/golang_protobuf_extensions v1.0.1 // indirect
 	github.com/pkg/errors v0.9.1 // indirect
 	github.com/prometheus/client_golang v1.7.1 // indirect
@@ -22,7 +23,6 @@ require (
 	github.com/prometheus/procfs v0.1.3 // indirect
 	go.uber.org/atomic v1.6.0 // indirect
 	go.uber.org/multierr v1.5.0 // indirect
-	go.uber.org/zap v1.15.0 // indirect
 	golang.org/x/net v0.0.0-20220722155237-a158d28d115b // indirect
 	golang.org/x/sys v0.0.0-20220722155257-8c9f86f7a55f // indirect
 	golang.org/x/text v0.3.7 // indirect
